@@ -18,6 +18,25 @@
    (child_position(root, root) has a value); per event: the matrices of == and != between
    the slot roots, the returned reference / optional / bool.
 
+   Extension round - further observables (all judged below):
+     parc, cpc, trn, prec   the const / non-const twin of parent(), child_position, to_root,
+                  pre_order  ("Construct a ... traversal from a tree (which can be const or nonconst)")
+     pit, pitc, trit   the pre_order (non-const, const) and to_root iterators observed as state
+                  machines over the positions 0..n (n = end): post (nodes seen through it++ and the
+                  dereference operator), eqend / neend / eqbeg (it == end(), it != end(), it == begin()),
+                  mat (it_i == it_j for all pairs; non-const pre_order, n <= 6).  Both iterators declare
+                  std::forward_iterator_tag: two iterators of one traversal are equal iff they
+                  are at the same position; end() is "a dummy iterator to stop the traversal".
+     mapu         tree::map into a tree with a move-only label (std::unique_ptr<long>)
+     txt, out, wout   operator<< ("Outputs a tree."; the form is fixed by the library's own
+                  test/container/tree/output.cpp: one line per node in pre-order, one tab per
+                  level, the label as streamed by its own operator<<, a newline); txt is the
+                  label streamed alone, out / wout the whole tree to a narrow / wide stream
+     lt           the label type of the history: int, str (std::string), uptr (move-only
+                  std::unique_ptr<int>; == compares addresses, so == / != are not judged),
+                  tree (a nested tree<int> label), log (the log context's node, see below)
+   and the event kind "logop" of harness/c09_logtree.cpp (the log context's use of the tree).
+
    The judge
      1. parses the dump into the recursive value and compares the forest with Eff's
         (modulo the moved-from nodes the contract leaves open, and modulo ties for sort),
@@ -34,8 +53,8 @@
    the remaining events of that history are not judged (poisoned), up to the next reset. *)
 EXTENDS Tree, IOUtils
 
-VARIABLES l, bad, poisoned
-tvars == <<st, hist, l, bad, poisoned>>
+VARIABLES l, bad, poisoned, obs, nobs
+tvars == <<st, hist, l, bad, poisoned, obs, nobs>>
 
 T == ndJsonDeserialize(IOEnv.TRACE)
 
@@ -60,8 +79,27 @@ WellFormedDump(ev) ==
 Ref(s, i) == s * 1000 + i       \* i = 0-based DFS index
 Flag(c, why) == IF c THEN {} ELSE {why}
 
+(* decimal digits of a natural number / text of operator<< *)
+RECURSIVE Digits(_)
+Digits(n) == IF n < 0 THEN <<45>> \o Digits(0 - n) ELSE IF n < 10 THEN <<48 + n>> ELSE Digits(n \div 10) \o <<48 + (n % 10)>>
+RECURSIVE OutText(_, _, _)
+OutText(N, ps, i) ==
+  IF i > Len(ps) THEN <<>>
+  ELSE [j \in 1..Level(ps[i]) |-> 9] \o N[i].txt \o <<10>> \o OutText(N, ps, i + 1)
+
+(* an iterator range observed over its positions 1..m+1 (m+1 = end) must visit `expect` *)
+IterVisitOK(o, expect) == o.cut = FALSE /\ o.post = expect
+IterEqOK(o, expect) ==
+  LET m == Len(expect) IN
+  /\ Len(o.post) = m
+  /\ o.eqend = [i \in 1..(m + 1) |-> IF i = m + 1 THEN 1 ELSE 0]
+  /\ o.neend = [i \in 1..(m + 1) |-> IF i = m + 1 THEN 0 ELSE 1]
+  /\ o.eqbeg = [i \in 1..(m + 1) |-> IF i = 1 THEN 1 ELSE 0]
+  \* the matrix of all pairs is logged for the non-const pre_order iterator of small trees only
+  /\ o.mat = <<>> \/ o.mat = [i \in 1..(m + 1) |-> [j \in 1..(m + 1) |-> IF i = j THEN 1 ELSE 0]]
+
 (* reasons concerning one live slot of the dump *)
-SlotReasons(s, sl, t) ==
+SlotReasons(s, sl, t, lt) ==
   LET N == sl.nodes
       ps == PathsOf(t)
       n == Len(ps)
@@ -72,6 +110,14 @@ SlotReasons(s, sl, t) ==
   IN  Flag(\A i \in 1..n : N[i].par # -2 /\ N[i].fr # -2 /\ N[i].bk # -2, "dangling-link")
       \cup Flag(N[1].par = -1 \/ N[1].par = -2, "root-has-parent")
       \cup Flag(\A i \in 2..n : N[i].par = -2 \/ N[i].par = RefOfPath(Front(ps[i])), "parent-link")
+      \cup Flag(\A i \in 1..n : N[i].parc = N[i].par /\ N[i].cpc = N[i].cp /\ N[i].trn = N[i].tr
+                /\ sl.prec = sl.pre, "const-overload")
+      \cup Flag(IterVisitOK(sl.pit, [i \in 1..n |-> Ref(s, i - 1)]) /\ IterVisitOK(sl.pitc, [i \in 1..n |-> Ref(s, i - 1)])
+                /\ (DOMAIN sl.trit # {} =>
+                      /\ Len(sl.trit.post) >= 1
+                      /\ \E i \in 1..n : Ref(s, i - 1) = sl.trit.post[1] /\ IterVisitOK(sl.trit, N[i].tr)), "iterator-visit")
+      \cup Flag(IterEqOK(sl.pit, [i \in 1..n |-> Ref(s, i - 1)]) /\ IterEqOK(sl.pitc, [i \in 1..n |-> Ref(s, i - 1)])
+                /\ (DOMAIN sl.trit # {} => IterEqOK(sl.trit, sl.trit.post)), "iterator-equality")
       \cup Flag(\A i \in 1..n : N[i].sz = N[i].nk /\ N[i].em = (N[i].nk = 0), "size")
       \cup Flag(\A i \in 1..n :
                   LET nk == N[i].nk IN
@@ -90,6 +136,18 @@ SlotReasons(s, sl, t) ==
                 \* the mapped tree is a fresh object: its own links must be consistent too
                 /\ \A i \in 1..n : sl.map[i].par = (IF ps[i] = <<>> THEN -1 ELSE IndexOfPath(mt, Front(ps[i]))),
               "map")
+      \cup Flag(/\ Len(sl.mapu) = n
+                /\ ParseAt(sl.mapu, 1).n = n + 1
+                /\ ParseAt(sl.mapu, 1).t = mt
+                /\ \A i \in 1..n : sl.mapu[i].par = (IF ps[i] = <<>> THEN -1 ELSE IndexOfPath(mt, Front(ps[i]))),
+              "map-move-only")
+      \cup Flag(lt \notin {"int", "str"} \/
+                  /\ sl.out = OutText(N, ps, 1)
+                  /\ lt = "int" => sl.wout = sl.out /\ \A i \in 1..n : N[i].txt = Digits(N[i].v),
+              "output")
+
+RECURSIVE PrefixTextRec(_)     \* "a: b: m" as code points for the names <<1, 2>>
+PrefixTextRec(names) == IF names = <<>> THEN <<109>> ELSE <<96 + Head(names), 58, 32>> \o PrefixTextRec(Tail(names))
 
 (* reasons for one operation event ev applied to forest f *)
 Reasons(f, ev) ==
@@ -112,18 +170,64 @@ Reasons(f, ev) ==
         IF e.ret = NoRet THEN ev.ret = -1
         ELSE Valid(L, e.ret.s, e.ret.p) /\ ev.ret = Ref(e.ret.s, IndexOfPath(L[e.ret.s].t, e.ret.p))
       cmpOK ==
+        ev.lt \in {"uptr", "log"} \/
         \A s \in 1..NS : \A u \in 1..NS :
           IF L[s].live /\ L[u].live
           THEN LET b == Equal(L[s].t, L[u].t) IN
                /\ ev.eq[s][u] = (IF b THEN 1 ELSE 0)
                /\ ev.ne[s][u] = (IF b THEN 0 ELSE 1)
           ELSE ev.eq[s][u] = -1 /\ ev.ne[s][u] = -1
+      \* the log context (harness/c09_logtree.cpp): what the public API of the REAL context shows of
+      \* its hidden tree must agree with the tree driven by the same operations.  context::get is
+      \* judged for existing locations only ("Gets the current log level for a location"; the
+      \* documentation is silent about locations that do not exist).  A log object's level() is its
+      \* node's level, and its formatter prefixes the names from the root down to its node
+      \* (log.doxygen: "root: child: warning: Print from child.").
+      logT == L[1].t
+      logGetOK ==
+        ev.lt # "log" \/
+        (L[1].live /\ \A i \in 1..Len(ev.get) :
+           LET pth == LogPath(logT, <<>>, ev.get[i].ns)
+           IN pth = <<-1>> \/ ev.get[i].l = LogLevel(Sub(logT, pth).v))
+      logObjOK ==
+        ev.lt # "log" \/ ev.op # "log_create" \/
+        (/\ L[1].live /\ HasPath(logT, e.ret.p)
+         /\ ev.olvl = LogLevel(Sub(logT, e.ret.p).v)
+         /\ ev.ofmt = PrefixTextRec(LogNamesOf(logT, e.ret.p)))
   IN  Flag(structOK, "structure")
+      \cup Flag(logGetOK, "log-get")
+      \cup Flag(logObjOK, "log-object")
       \cup Flag(retOK, "returned-reference")
       \cup Flag(ev.some = e.some, "returned-optional")
       \cup Flag(ev.rb = e.rb, "returned-bool")
       \cup Flag(cmpOK, "comparison")
-      \cup UNION {SlotReasons(s, ev.slots[s], L[s].t) : s \in {s \in 1..NS : L[s].live}}
+      \cup UNION {SlotReasons(s, ev.slots[s], L[s].t, ev.lt) : s \in {s \in 1..NS : L[s].live}}
+
+(* ---- scope (binding): a reason makes an event REJECTED only if the statement of property C09
+   covers it; every other reason is an OBSERVATION (reported, never a rejected event).
+     "every child's parent() refers to the node that lists it as a child" .... parent-link
+     "a root has no parent" ................................................... root-has-parent
+     "no link refers to a destroyed node" ..................................... dangling-link
+     "The traversals pre_order and to_root ... agree with the same computations on a plain
+      recursive reference model" ............ pre_order, to_root, iterator-visit (the nodes the
+      iterators visit), const-overload (the const / non-const twins of parent(), pre_order,
+      to_root, child_position are those same functions)
+     "the functions depth, level, child_position, map and comparison agree ..." ... depth, level,
+      child_position, map, map-move-only (tree::map with another Result), comparison,
+      returned-bool (the result of == / != between two nodes)
+     "After any sequence of tree operations (...)", "copies are deep and independent", and the
+      reference model itself .......... structure (the forest value after each listed operation)
+   Outside the statement - observed only: operator<< (output), size()/empty() (size),
+   front()/back() (front-back), the reference returned by push_back/push_front
+   (returned-reference), has_value of pop_back/pop_front (returned-optional), iterator equality
+   (iterator-equality), everything about the log context (log-get, log-object, and for the
+   operations log_ctor / log_create / log_set also structure and returned-reference: what a
+   log operation does to the tree is the log context's contract, not the tree's). *)
+InScopeReasons ==
+  {"parent-link", "root-has-parent", "dangling-link", "pre_order", "to_root", "iterator-visit",
+   "const-overload", "depth", "level", "child_position", "map", "map-move-only", "comparison",
+   "returned-bool", "structure"}
+InScope(ev, r) == r \in InScopeReasons /\ ~(ev.lt = "log" /\ r = "structure")
 
 TInit ==
   /\ st = EmptyForest
@@ -131,32 +235,43 @@ TInit ==
   /\ l = 1
   /\ bad = <<>>
   /\ poisoned = FALSE
+  /\ obs = <<>>
+  /\ nobs = 0
 
 TReset ==
   /\ T[l].e = "reset"
   /\ st' = EmptyForest
   /\ poisoned' = FALSE
   /\ bad' = bad
+  /\ UNCHANGED <<obs, nobs>>
 
 TEnd ==
   /\ T[l].e = "end"
   /\ st' = EmptyForest
-  /\ UNCHANGED <<poisoned, bad>>
+  /\ UNCHANGED <<poisoned, bad, obs, nobs>>
 
 TOp ==
   /\ T[l].e = "op"
   /\ LET ev == T[l] IN
      IF poisoned
-     THEN /\ st' = st /\ UNCHANGED <<poisoned, bad>>
+     THEN /\ st' = st /\ UNCHANGED <<poisoned, bad, obs, nobs>>
      ELSE IF ~WellFormedDump(ev)
      THEN /\ bad' = Append(bad, [l |-> l, op |-> ev.op, why |-> {"MALFORMED-DUMP"}])
-          /\ st' = st /\ poisoned' = TRUE
+          /\ st' = st /\ poisoned' = TRUE /\ UNCHANGED <<obs, nobs>>
      ELSE IF ~Pre(st, ev)
      THEN \* a harness bug, not a verdict about the code: reported as such
           /\ bad' = Append(bad, [l |-> l, op |-> ev.op, why |-> {"HARNESS-PRECONDITION"}])
-          /\ st' = st /\ poisoned' = TRUE
-     ELSE LET why == Reasons(st, ev) IN
+          /\ st' = st /\ poisoned' = TRUE /\ UNCHANGED <<obs, nobs>>
+     ELSE LET all == Reasons(st, ev)
+              why == {r \in all : InScope(ev, r)}
+              out == all \ why
+          IN
           /\ bad' = IF why = {} THEN bad ELSE Append(bad, [l |-> l, op |-> ev.op, why |-> why])
+          \* observations: outside the statement of C09 - never a rejected event; the first 200 are
+          \* kept verbatim, all are counted.  (A forest value that differs from the model's is
+          \* adopted as the new state either way, so an observation does not cascade.)
+          /\ nobs' = IF out = {} THEN nobs ELSE nobs + 1
+          /\ obs' = IF out = {} \/ nobs >= 200 THEN obs ELSE Append(obs, [l |-> l, op |-> ev.op, why |-> out])
           /\ poisoned' = (why # {})
           /\ st' = Logged(ev)
 
@@ -170,7 +285,7 @@ TSpec == TInit /\ [][TNext]_tvars
 
 (* verdict: printed once when the whole trace has been consumed *)
 Done == l = Len(T) + 1
-Verdict == Done => PrintT("VERDICT " \o ToJson([n |-> Len(T), bad |-> bad]))
+Verdict == Done => PrintT("VERDICT " \o ToJson([n |-> Len(T), bad |-> bad, obs |-> obs, nobs |-> nobs]))
 (* an unknown event kind (a crash record) is explained by no action: TLC stops with
    l <= Len(T) and the postcondition reports the line *)
 Consumed == TLCSet(1, l)
